@@ -6,7 +6,7 @@ CONSTANTS Names = {"n1","n2"}
           LenRV = 0
           LenRR = 0
           TrR = {FALSE}
-          TTLs = {1,2}
+          TTLs = {0,2}
           SeqExplicit = {}
           CacheSizes = {0,1,2}
           MaxTTLCaps = {1}
